@@ -22,6 +22,7 @@ var table = map[string]func(tier string) int{
 	"C11": checks.C11,
 	"C16": checks.C16,
 	"C17": checks.C17,
+	"C19": checks.C19,
 	"C20": checks.C20,
 }
 
